@@ -85,4 +85,59 @@ theorem layer_slices_contiguous_counterexample : ¬ layer_slices_contiguous_Full
   revert this
   decide
 
+/-- (4) generic `codec.Parameters` objects (extractBasicLosslessParams): whatever keys are present, the extracted
+    object has Rate ≥ 1 (a generic "rate" ≤ 0 does not override the default 20), so a generic object always
+    requests a rate ladder; it is in the property's scope exactly when it does not switch the final lossless
+    layer off; the progression order is reduced modulo 256 (uint8) and then repaired by Validate; and for every
+    in-scope generic object the conclusions of (1) hold. -/
+theorem generic_params_sound (g : GParams) (bs ba : Int) (hbs : 1 ≤ bs) (hba : 1 ≤ ba) :
+    (extractGeneric g).Rate > 0 ∧ 0 ≤ (extractGeneric g).ProgressionOrder ∧
+    (inScope (extractGeneric g) ↔ g.appendLosslessLayer ≠ some false) ∧
+    (g.appendLosslessLayer ≠ some false →
+      let e := encodeParams bs ba (extractGeneric g)
+      e.Lossless = true ∧ 2 ≤ e.NumLayers ∧ 0 ≤ e.NumLevels ∧ e.NumLevels ≤ 6 ∧
+      0 ≤ e.ProgressionOrder ∧ e.ProgressionOrder ≤ 4 ∧ e.AppendLosslessLayer = true ∧
+      e.LayerRates.getLast? = some Frac.zero ∧ appendLosslessFlag e = true) := by
+  have hrate := extract_rate g
+  have hprog := extract_prog g
+  have happ := extract_append g
+  have hscope : inScope (extractGeneric g) ↔ g.appendLosslessLayer ≠ some false := by
+    unfold inScope
+    constructor
+    · rintro (h | ⟨h, _⟩)
+      · exact happ.mp h
+      · omega
+    · intro h; exact Or.inl (happ.mpr h)
+  refine ⟨hrate, hprog, hscope, ?_⟩
+  intro hne
+  have hs := hscope.mpr hne
+  have S := lossless_params_sound (extractGeneric g) bs ba hbs hba hprog hs
+  simp only [] at S
+  obtain ⟨s1, s2, s3, s4, s5, s6, s7, s8, s9⟩ := S
+  have F := validate_spec (extractGeneric g)
+  have hvr : (validate (extractGeneric g)).Rate > 0 := by
+    rw [validate_rate_pos _ hrate]; exact hrate
+  have hA : (encodeParams bs ba (extractGeneric g)).AppendLosslessLayer = true := by
+    show (validate (extractGeneric g)).AppendLosslessLayer = true
+    rw [F.app]; exact happ.mpr hne
+  have hpos : (encodeParams bs ba (extractGeneric g)).TargetRatio.pos = true := by
+    show (configure bs ba (validate (extractGeneric g))).TargetRatio.pos = true
+    unfold configure
+    by_cases h : (validate (extractGeneric g)).TargetRatio.pos = true
+    · simp [h]
+    · have h' : (validate (extractGeneric g)).TargetRatio.pos = false := by simpa using h
+      simp only [h', Bool.not_false, Bool.true_and, hvr, decide_true, if_true]
+      exact rateToTargetRatio_pos _ bs ba hvr hbs hba
+  have h7 := s7 hpos
+  intro e
+  refine ⟨s1, h7.2, s3, s4, s5, s6, hA, s8 hvr, ?_⟩
+  apply s9
+  unfold useLayered
+  simp [hpos]
+
+example :
+    let g : GParams := ⟨some 9, none, some (-4), some [], some 260, some 3, none, none, none⟩
+    extractGeneric g = { defaultLParams with ProgressionOrder := 4, NumLayers := 3 } ∧
+    (encodeParams 12 16 (extractGeneric g)).NumLayers = 4 := by decide
+
 end J2kL
